@@ -137,7 +137,9 @@ def element_options(interp, it, node):
     if ov is not None:
         n, at = ov
         k = ctx.fresh("k", z3.IntSort())
-        return [([k], z3.And(k >= 0, k < n), at(k), k)]
+        # the element is computed lazily, AFTER the range condition has been assumed (it may involve calls whose
+        # pre-conditions depend on the index being in range)
+        return [([k], z3.And(k >= 0, k < n), (lambda: at(k)), k)]
     if isinstance(it, VSet) and it.pred is None and isinstance(it.content, CompBag) and it.content.sites \
             and all(isinstance(s.elem, (VInt, VStr)) for s in it.content.sites):
         # a set yields each DISTINCT element once: bind the element value, not the generating instance
@@ -171,7 +173,8 @@ def element_options(interp, it, node):
         for opt in element_options(interp, it.it, node):
             bv, cond, elem = opt[0], opt[1], opt[2]
             i = ctx.fresh("idx", z3.IntSort())
-            out.append((bv + [i], z3.And(cond, i >= it.start), VTuple([VInt(i), elem]), None) + tuple(opt[4:]))
+            out.append((bv + [i], z3.And(cond, i >= it.start),
+                        (lambda elem=elem, i=i: VTuple([VInt(i), elem() if callable(elem) else elem])), None) + tuple(opt[4:]))
         return out
     if isinstance(it, VCombos):
         return combos_options(interp, it, node)
